@@ -230,8 +230,14 @@ func (p *Program) Func(name string) *ssa.Function {
 	if f == nil {
 		broken("anchor function %q does not resolve in %s", name, p.Config)
 	}
+	if d := os.Getenv("VGW_DUMPFN"); d != "" && d == name && !dumped[name] {
+		dumped[name] = true
+		f.WriteTo(os.Stderr)
+	}
 	return f
 }
+
+var dumped = map[string]bool{}
 
 // returnedFunc: "pkg.Factory$1" names the function literal a factory returns (a fiber handler). When the factory
 // returns a named function or a method value instead, that function is the same subject: it is found through
